@@ -65,7 +65,9 @@ func resample(ls orb.LineString, dists []float64, totalDistance float64, totalPo
 		currentSegDistance := dists[i]
 		nextDistance := dist + currentSegDistance
 
-		for currentDistance <= nextDistance {
+		// a zero length segment has nothing to interpolate on, and if the whole
+		// line measures zero the target distance never moves past it.
+		for currentSegDistance > 0 && currentDistance <= nextDistance {
 			// need to add a point
 			percent := (currentDistance - dist) / currentSegDistance
 			points = append(points, orb.Point{
@@ -83,6 +85,12 @@ func resample(ls orb.LineString, dists []float64, totalDistance float64, totalPo
 
 		// past the current point in the original segment, so move to the next one
 		dist = nextDistance
+	}
+
+	// a line that measures zero (distinct vertices closer than the distance
+	// function can resolve) produced no intermediate points, use the end.
+	for len(points) < totalPoints {
+		points = append(points, ls[len(ls)-1])
 	}
 
 	// end stays the same, to handle round off errors
